@@ -50,7 +50,8 @@ def finish(prop, tier, seed, obligations, undecided, notes, vr, kr, wall, write_
     violations = []
     known_lines = []
     kani_meta = None
-    for ob in obligations:
+    # Kani failures first: they come with replayable counterexamples
+    for ob in sorted(obligations, key=lambda o: 0 if o.backend.startswith("kani") else 1):
         if ob.status != "failed":
             continue
         remaining = []
@@ -97,8 +98,8 @@ def finish(prop, tier, seed, obligations, undecided, notes, vr, kr, wall, write_
     for ob, path, reproduced in violations:
         suffix = "" if reproduced else " no-failing-input-found"
         print(f"VIOLATION property={prop} replay={path} obligation={ob.name}{suffix}")
-        for d in ob.detail[:4]:
-            print("    " + d[:240])
+        for d in ob.detail[:2]:
+            print("    " + d[:200])
     for u in undecided:
         print(f"UNDECIDED property={prop} reason={u}")
     for n in notes:
